@@ -104,7 +104,7 @@ MC_WIDE1 = dict(MaxDepth=1, MatcherKinds=S("none", "eq", "neq", "empty"), Matche
                 DBSeries=1, DBA=S("x", "y"), DBB=S("x"), DBC=S("x"), DBVals=S(1, 2))
 # exhaustive: absent() / aggregations over selectors incl. the empty matcher, joined with * / and / unless (depth 2)
 MC_ABSENT = dict(MaxDepth=2, MaxBinNest=1, MatcherKinds=S("none", "eq", "empty"), MatcherKindsB=S("none"), Leaves=S("sel"),
-                 UnFns=S("absent"), AggOps=S("sum"), AggLabelSets=S(S("a")), ArithOps=S("*"), CmpOps=S(), SetOps=S("and", "unless"),
+                 UnFns=S("absent", "lrepdel"), AggOps=S("sum"), AggLabelSets=S(S("a")), ArithOps=S("*"), CmpOps=S(), SetOps=S("and", "unless"),
                  MatchSets=S(S("a")), GroupIncs=S(), DBSeries=1, DBA=S("x", "y"), DBB=S("x"), DBC=S(), DBVals=S(1))
 # exhaustive: two nested aggregations on either side of a plain arithmetic join (depth 3)
 MC_NEST = dict(MaxDepth=3, MaxBinNest=1, MatcherKinds=S("none"), MatcherKindsB=S("none", "eq"), Leaves=S("sel"), UnFns=S(),
@@ -155,6 +155,9 @@ PROBES = {
     # fixes/f22-empty-matcher-not-guaranteed.patch: absent(m{a=""}) does not guarantee label a
     # fixes/C12-static-value-tracking.patch: count() of a known value is not that value
     "StaticVal": _bin("==", "none", [], _agg("count", "none", [], {"k": "vec", "e": {"k": "num", "v": 2}}), {"k": "num", "v": 1}),
+    # fixes/C12-label-replace-empty-replacement.patch: label_replace(e, "a", "", ...) does not guarantee a
+    "LrepEmpty": _bin("and", "none", [], {"k": "fn", "f": "lrep", "e": _agg("sum", "none", [], _sel("m")), "dst": "a", "src": "b", "re": ".*", "repl": ""},
+                      _agg("sum", "none", [], _sel("n"))),
     "EmptyEq": _bin("and", "none", [], {"k": "fn", "f": "absent", "e": _sel("m", "empty"), "dst": "", "src": "", "re": "", "repl": ""},
                 {"k": "fn", "f": "absent", "e": _sel("n"), "dst": "", "src": "", "re": "", "repl": ""}),
 }
